@@ -303,8 +303,8 @@ func parseStatCSV(out string) ([]*csvTable, error) {
 // generation
 
 var (
-	stBases  = []string{"Encode", "Decode", "Sort", "Copy", "Hash", "Parse"}
-	stSizes  = []string{"1k", "4k", "64"}
+	stBases  = []string{"Encode", "Decode", "Sort", "Copy", "Hash", "Parse", "Ab", "A", "Merge", "Scan", "Walk", "Zip"}
+	stSizes  = []string{"1k", "4k", "64", "c", "bc"}
 	stKinds  = []string{"ka", "kb"}
 	stProcs  = []string{"", "-4", "-8"}
 	stUnits  = []string{"ns/op", "B/op", "MB/s", "widgets", "x-bytes"}
@@ -338,7 +338,7 @@ func genStatValue(t *rapid.T, center float64, constant bool) float64 {
 	}
 }
 
-func genStatFile(t *rapid.T, scale float64, constant bool) statFile {
+func genStatFile(t *rapid.T, scale float64, constant bool, baseOff int, many bool) statFile {
 	var sb strings.Builder
 	var f statFile
 	if vcase.OneIn(t, 4, "label") {
@@ -351,7 +351,17 @@ func genStatFile(t *rapid.T, scale float64, constant bool) statFile {
 	}
 	nblocks := rapid.IntRange(1, 3).Draw(t, "nblocks")
 	nbases := rapid.IntRange(1, 4).Draw(t, "nbases")
-	bases := stBases[:nbases]
+	if many {
+		nbases = rapid.IntRange(8, 12).Draw(t, "nbasesmany")
+	}
+	// (baseOff > 0: this file's benchmarks are disjoint from the first file's)
+	bases := make([]string, 0, nbases)
+	for i := 0; i < nbases; i++ {
+		bases = append(bases, stBases[(baseOff+i)%len(stBases)])
+	}
+	if vcase.OneIn(t, 6, "collide") && nbases >= 2 {
+		bases[0], bases[1] = "Ab", "A" // with sizes "c"/"bc": tuples whose concatenations coincide
+	}
 	withSize := rapid.Bool().Draw(t, "withsize")
 	withKind := vcase.OneIn(t, 3, "withkind")
 	proc := rapid.SampledFrom(stProcs).Draw(t, "proc")
@@ -404,6 +414,17 @@ func genStatFile(t *rapid.T, scale float64, constant bool) statFile {
 			}
 		}
 	}
+	if vcase.OneIn(t, 12, "wide") {
+		// a result line with more measurements than one mask word of the filter holds
+		nw := rapid.SampledFrom([]int{32, 33, 40, 64, 65}).Draw(t, "nwide")
+		for rep := 0; rep < 2; rep++ {
+			sb.WriteString("BenchmarkWide 1")
+			for i := 0; i < nw; i++ {
+				fmt.Fprintf(&sb, " %d u%d", 10+i+rep, i)
+			}
+			sb.WriteString("\n")
+		}
+	}
 	f.Text = sb.String()
 	return f
 }
@@ -443,12 +464,18 @@ func genStatCase(t *rapid.T) statCase {
 	// constant mode: every measurement of a benchmark/unit is the same number in every file
 	// (the comparison then cannot run a test: "all samples are equal")
 	constant := vcase.OneIn(t, 8, "constant")
+	disjoint := vcase.OneIn(t, 10, "disjoint") // files without any benchmark in common
+	many := vcase.OneIn(t, 12, "manyrows")     // ten or more rows (and, with exact units, as many distinct warnings)
 	for i := 0; i < nfiles; i++ {
 		scale := 1 + float64(i)*0.06
 		if constant {
 			scale = 1
 		}
-		c.Files = append(c.Files, genStatFile(t, scale, constant))
+		off := 0
+		if disjoint && i > 0 {
+			off = 4 * i
+		}
+		c.Files = append(c.Files, genStatFile(t, scale, constant, off, many))
 	}
 	for i := range c.Files {
 		c.Paths = append(c.Paths, i)
@@ -457,7 +484,7 @@ func genStatCase(t *rapid.T) statCase {
 		c.Paths = append(c.Paths, rapid.IntRange(0, nfiles-1).Draw(t, "dup"))
 	}
 	if vcase.OneIn(t, 3, "customcol") {
-		c.Col = genStatExpr(t, []string{".file", "goos", "goarch", "/kind", "/size", "commit", "/gomaxprocs"}, "col", 2)
+		c.Col = genStatExpr(t, []string{".file", "goos", "goarch", "/kind", "/size", "commit", "/gomaxprocs"}, "col", 3)
 	}
 	if vcase.OneIn(t, 3, "customrow") {
 		c.Row = genStatExpr(t, []string{".fullname", ".name", "/size", "/kind", "pkg"}, "row", 2)
@@ -488,7 +515,7 @@ func genStatFilter(t *rapid.T, depth int) *refexpr.Node {
 	leaf := func() *refexpr.Node {
 		switch rapid.IntRange(0, 4).Draw(t, "fleaf") {
 		case 0:
-			return &refexpr.Node{Op: "match", Key: ".unit", Vals: []refexpr.Term{{Lit: rapid.SampledFrom([]string{"ns/op", "sec/op", "B/op", "MB/s", "B/s", "widgets"}).Draw(t, "fu")}}}
+			return &refexpr.Node{Op: "match", Key: ".unit", Vals: []refexpr.Term{{Lit: rapid.SampledFrom([]string{"ns/op", "sec/op", "B/op", "MB/s", "B/s", "widgets", "u0", "u20", "u31", "u32", "u33", "u63", "u64"}).Draw(t, "fu")}}}
 		case 1:
 			return &refexpr.Node{Op: "match", Key: ".name", Vals: []refexpr.Term{{Lit: rapid.SampledFrom(stBases[:3]).Draw(t, "fn")}}}
 		case 2:
